@@ -169,6 +169,15 @@ let () =
             | [a; b] -> (trim a, trim b) | [a] -> (trim a, "?") | _ -> (opres, "?") in
           Buffer.add_string opsig op; Buffer.add_char opsig ';';
           let f = Array.of_list (List.filter (fun s -> s <> "") (split_on op " ")) in
+          if op = "N" then begin
+            (* the constructor failed in the implementation *)
+            bump "constructions_rejected" 1;
+            (match tabs.(0) with
+             | Ok _ -> mism "api" (Printf.sprintf "construction: implementation %s, the proved model accepts these options" res)
+             | Panic -> if res <> "PANIC" then mism "api" (Printf.sprintf "construction: implementation %s, proved model PANIC" res)
+             | Hang -> mism "api" (Printf.sprintf "construction: implementation %s, proved model HANG" res));
+            dead := true
+          end else
           let c = f.(0).[0] and x = Char.code f.(0).[1] - 48 in
           let arg i = int_of_string f.(i) in
           match tabs.(x), tabs.(1 - x) with
